@@ -59,6 +59,8 @@ for nidl in (True, False):
 # node ids one of which is a prefix of the other, on the back end that looks records up by node id itself
 beh("f05_nid_prefix", ["C05"], [A("k1", "e1", "n1"), A("k2", "e1", "n2"), NID("k1", "N1"), NID("k2", "N10"), G("k1", "k1", "N1"), G("k2", "k2", "N10"), G("k1", "k2", "N1"), G("k2", "k2", "N1"), G("k2", "k1", "N10"),
                                 G("k1", "k2", "N1", hasState=True, ssig="k2")], nidl=True, so=True)
+beh("f10_inner_window", ["C10", "C03"], [A("k1", "e1", "n1", "s1"), dict(ROT("k1", "k1", "cur", "k2", "e2", "n2"), win="exp2m"), dict(ROT("k1", "k1", "cur", "k2", "e2", "n2"), win="fut2m"),
+                                          ROT("k1", "k1", "cur", "k2", "e2", "n2"), dict(ROT("k2", "k2", "cur", "k3", "e1", "n1"), win="fut2m")])
 def FR(t, ka, kb, e="e1", be="inmem"): return dict(op="FetchRace", t=t, ka=ka, kb=kb, e=e, be=be)
 # overlapping fetches presenting the same token: known finding KF-C06-1 on the in-memory back end; the file back end refuses the loser
 beh("kf_c06_race", ["C06", "C01"], [T("t1", "s1"), FR("t1", "k1", "k2"), F("k3", "e1", "t1"), T("t2"), FR("t2", "k3", "k1"), FR("t2", "k3", "k2")])
